@@ -248,6 +248,14 @@ func corruptFile(path string, kind string) {
 		c["deltaCRL"] = json.RawMessage(`""`)
 		out, _ := json.Marshal(c)
 		write(out)
+	case "deltaBadBase64":
+		// the delta field is text that is not base64 / is not text at all (the base field stays intact)
+		if c == nil {
+			c = map[string]json.RawMessage{}
+		}
+		c["deltaCRL"] = json.RawMessage([]string{`"TUl]AQ=="`, `12345`, `{"der":"x"}`, `true`}[len(b)%4])
+		out, _ := json.Marshal(c)
+		write(out)
 	case "trailing":
 		// a complete entry followed by something else: not a well-formed entry
 		write(append(b, []byte([]string{"}", " garbage", `{"foo":1}`, string(b)}[len(b)%4])...))
